@@ -35,6 +35,9 @@ Definition value_in_grammar_bytes (bs : bytes) (v : value) : Prop :=
   exists toks, lexes_to bs toks /\ layout_of (tokens_value v) toks = true /\
                wf_value false v = true /\ (depth_value v <= max_recursion)%Z.
 
+(** the same token up to its position *)
+Definition same_token_text (a b : token) : Prop := tk a = tk b /\ tv a = tv b.
+
 (** ** what the scanner hands to the parser *)
 
 (** lexicographic order of positions *)
